@@ -24,6 +24,9 @@ pub struct LookupTrace {
     /// store requests of the following put, if any: (dst, token)
     pub stores: Vec<SocketAddrV4>,
     pub arrival_fp: u64,
+    /// every (id, address) pair the lookup was told: answerers and listed entries (an address may appear
+    /// under several ids)
+    pub told_pairs: BTreeSet<(Id, SocketAddrV4)>,
     /// answers that arrived after 500 ms but while another request of the lookup was certainly pending
     /// (sent less than 450 ms earlier and unanswered) and within the socket's retention (< 2 s): the node
     /// accepts those by design, they count as answers
@@ -43,6 +46,7 @@ pub fn lookup_trace(sim: &Sim, host: HostId, target: &Id, from: u64, to: u64) ->
             known: BTreeMap::new(),
             stores: vec![],
             arrival_fp: 0,
+            told_pairs: BTreeSet::new(),
             late_counted: 0,
             ambiguous_late: false,
         };
@@ -113,11 +117,13 @@ pub fn lookup_trace(sim: &Sim, host: HostId, target: &Id, from: u64, to: u64) ->
             if let Some(id) = k.id() {
                 lt.answerers.insert(*src, (id, k.token().is_some()));
                 lt.known.insert(*src, id);
+                lt.told_pairs.insert((id, *src));
                 lt.arrival_fp = crate::rng::key(lt.arrival_fp, &[u32::from(*src.ip()) as u64, src.port() as u64]);
             }
             if let Some(nodes) = k.nodes() {
                 for (id, a) in nodes {
                     lt.known.entry(a).or_insert(id);
+                    lt.told_pairs.insert((id, a));
                 }
             }
         }
